@@ -130,6 +130,45 @@ def predicate(g, ops, rng):
     return None
 
 
+def random_tree(rng, depth=0):
+    """JSON-representable values with hostile strings (quotes, backslashes, control characters, non-ASCII, astral characters)"""
+    strs = ['', 'a', 'he said "hi"', 'back\\slash', 'tab\there', 'line\nbreak', 'nul\x00', 'del\x7f', '\u00e9\u4e2d', '\U0001f600 astral', '/slash', "it's", '\x1f']
+    r = rng.random()
+    if depth > 2 or r < 0.45:
+        return rng.choice([None, True, False, 0, -1, 7, 12345678901234567890, rng.choice(strs), rng.choice(strs)])
+    if r < 0.7:
+        return [random_tree(rng, depth + 1) for _ in range(rng.randint(0, 3))]
+    return {rng.choice(strs) + str(i): random_tree(rng, depth + 1) for i in range(rng.randint(0, 3))}
+
+
+def json_text_correspondence(run, tier, seed, trees):
+    """the TEXT level: json.dumps(tree) must be, character for character, what the model's json_print gives; json.loads of that text
+    must be what the model's json_parse gives, and the tree itself for well-formed trees (JsonText.v)"""
+    rng = random.Random(seed + 55)
+    trees = list(trees) + [random_tree(rng) for _ in range(150 if tier == 'quick' else 2000)]
+    rows = []
+    for t in trees:
+        text = json.dumps(t)
+        back = json.loads(text)
+        rows.append('{| jc_tree := %s; jc_text := %s; jc_back := Some %s |}' % (SC.cq_any(t), C.cq_name(text), SC.cq_any(back)))
+    wd = C.workdir()
+    files = []
+    chunk = 40
+    for i in range(0, len(rows), chunk):
+        f = wd / f'jt_{i // chunk}.v'
+        f.write_text(C.COQ_HEADER + 'From CG Require Import Base JsonText CorrJsonText.\nLocal Open Scope N_scope.\n'
+                     'Definition cs : list jcase := [\n ' + ';\n '.join(rows[i:i + chunk]) + '\n].\nEval vm_compute in (map N.of_nat (jmismatches cs)).\n')
+        files.append((i, f))
+    bad = []
+    for (base, f), (_, rc, so, se) in zip(files, C.run_coq_files([f for _, f in files], timeout=1800)):
+        if rc != 0:
+            raise RuntimeError(f'coqc failed on {f}: {se[-1500:]}')
+        bad += [base + j for j in C.parse_N_list(C.parse_eval_blocks(so)[0])]
+    run.coverage['json_text_cases'] = len(rows)
+    run.oblige(f'correspondence: json.dumps / json.loads at the text level == JsonText model on {len(rows)} trees (graph dictionaries + hostile values)',
+               not bad, '' if not bad else f'first disagreement on the tree {json.dumps(trees[bad[0]])[:300]}')
+
+
 def check(run, tier, seed):
     rng = random.Random(seed)
     n = 100 if tier == 'quick' else 1500
@@ -150,6 +189,7 @@ def check(run, tier, seed):
     # the property on the implementation
     viol = 0
     npred = 0
+    jtrees = []
     for c in cases + [None] * (50 if tier == 'quick' else 400):
         if c is None:
             kind = rng.choice(['Plain', 'TS'])
@@ -163,6 +203,10 @@ def check(run, tier, seed):
             gm = c['gmeta']
         npred += 1
         try:
+            jtrees.append(jt(g.to_dict()))
+        except Exception:  # noqa: BLE001
+            pass
+        try:
             why = predicate(g, ops, rng)
         except Exception as e:  # noqa: BLE001
             why = f'round trip raised {type(e).__name__}: {e}'
@@ -170,6 +214,7 @@ def check(run, tier, seed):
             viol += 1
             run.violation(dict(kind=kind, ops=ops, gmeta=gm, why=why, replay_cmd='./check C05 --replay <this file>'), note=why[:200])
     run.coverage['graphs_checked_by_the_property_predicate'] = npred
+    json_text_correspondence(run, tier, seed, jtrees)
     if bad and not viol:
         run.coverage['first_divergence'] = bad[0]
 
